@@ -273,7 +273,7 @@ def relevant(rec, case):
 
 
 SPEC = {
-    'lean': ['C02', 'NatSem'],
+    'lean': ['C02', 'NatSem', 'ByName'],
     'cases': cases,
     'relevant': relevant,
     'stream': 'C02 typed/closure program stream (main.main result vs uhdrv main)',
